@@ -944,6 +944,7 @@ class Skel:
     def __init__(self, node, stop_at, result_names):
         self.node, self.stop_at, self.result_names = node, stop_at, result_names
         self.tmp = 0
+        self.depth = 0
 
     def fresh(self):
         self.tmp += 1
@@ -983,6 +984,13 @@ class Skel:
             if t != "V":
                 raise Unsupported("subscript of a %s" % t)
             return b, '(getattr %s "[%d]")' % (c, e.slice.value), "V"
+        if isinstance(e, ast.BinOp) and type(e.op) in (ast.Add, ast.Sub, ast.Mult, ast.Div):
+            # arithmetic on opaque values: an uninterpreted (logged) operation that may raise
+            b1, c1, t1 = self.expr(e.left, env)
+            b2, c2, t2 = self.expr(e.right, env)
+            sym = {ast.Add: "+", ast.Sub: "-", ast.Mult: "*", ast.Div: "/"}[type(e.op)]
+            v = self.fresh()
+            return b1 + b2 + [(v, 'call oracle "op:%s" [%s; %s]' % (sym, self.toV(c1, t1), self.toV(c2, t2)))], v, "V"
         if isinstance(e, ast.Compare):
             if len(e.ops) != 1:
                 raise Unsupported("chained comparison")
@@ -1045,6 +1053,9 @@ class Skel:
                         add(t.id)
                     elif isinstance(t, ast.Attribute) and isinstance(t.value, ast.Name):
                         add(t.value.id)
+                    elif isinstance(t, ast.Tuple) and all(isinstance(x, ast.Name) for x in t.elts):
+                        for x in t.elts:
+                            add(x.id)
                     else:
                         raise Unsupported("assignment target %s" % ast.unparse(t))
             elif isinstance(s, ast.If):
@@ -1092,6 +1103,9 @@ class Skel:
             if brk is None:
                 raise Unsupported("break outside a loop")
             return brk(env)
+        if isinstance(s, ast.Return) and self.stop_at is None and brk is None and s.value is not None and self.depth == 0:
+            b, c, t = self.expr(s.value, env)
+            return self.wrap(b, "mret %s" % self.toV(c, t))
         if isinstance(s, ast.Raise) and s.exc is None:
             raise Unsupported("bare raise outside an except clause")
         if isinstance(s, ast.Assert):
@@ -1108,23 +1122,34 @@ class Skel:
                 env2 = dict(env)
                 env2[tgt.id] = t
                 return self.wrap(b, "let %s := %s in\n  %s" % (cname(tgt.id), c, nxt(env2)))
+            if isinstance(tgt, ast.Tuple) and all(isinstance(x, ast.Name) for x in tgt.elts) and t == "V":
+                # (a, b, ...) = value : positional reads of the (opaque) tuple
+                env2 = dict(env)
+                code = ""
+                for k_, x in enumerate(tgt.elts):
+                    env2[x.id] = "V"
+                    code += 'let %s := (getattr %s "[%d]") in\n  ' % (cname(x.id), c, k_)
+                return self.wrap(b, code + nxt(env2))
             if isinstance(tgt, ast.Attribute) and isinstance(tgt.value, ast.Name) and env.get(tgt.value.id) == "V":
                 o = cname(tgt.value.id)
                 return self.wrap(b, '%s <<- call oracle "setattr:%s" [%s; %s] ;;\n  %s' % (o, tgt.attr, o, self.toV(c, t), nxt(env)))
             raise Unsupported("assignment %s" % ast.unparse(s))
         if isinstance(s, ast.If):
             b, c, t = self.expr(s.test, env)
+            if t == "V":
+                c, t = "(truthy %s)" % c, "bool"     # Python truthiness of an opaque value (pure)
             if t != "bool":
                 raise Unsupported("condition of type %s" % t)
             if self.ends_with_break(s.body) and not s.orelse:
                 return self.wrap(b, "if %s then\n  %s\n  else\n  %s" % (c, self.block(s.body, env, self.no_fall, brk), nxt(env)))
-            for n in ast.walk(s):
-                if isinstance(n, ast.Break):
-                    raise Unsupported("break in this position")
-            names = self.assigned(s.body + s.orelse)
-            for n in names:
-                if n not in env:
-                    raise Unsupported("%s is first bound inside an if" % n)
+            if any(isinstance(n, ast.Break) for n in ast.walk(s)):
+                # a break somewhere inside: both branches continue with the rest of the block (which is duplicated)
+                if brk is None:
+                    raise Unsupported("break outside a loop")
+                return self.wrap(b, "if %s then\n  %s\n  else\n  %s" % (
+                    c, self.block(s.body, env, nxt, brk), self.block(s.orelse, env, nxt, brk)))
+            # names first bound inside the if stay local to it (a later use is then an unknown name: fail closed)
+            names = [n for n in self.assigned(s.body + s.orelse) if n in env]
             t_, p_ = self.tup(names)
             kk = lambda e2: "mret %s" % t_   # noqa: E731
             return self.wrap(b, "%s <<- (if %s then\n  %s\n  else\n  %s) ;;\n  %s" % (
@@ -1143,7 +1168,9 @@ class Skel:
             t_, p_ = self.tup(state)
             env_b = dict(env)
             env_b[s.target.id] = "Z"
+            self.depth += 1
             body = self.block(s.body, env_b, lambda e2: "mret (%s, false)" % t_, lambda e2: "mret (%s, true)" % t_)
+            self.depth -= 1
             return self.wrap(b, "%s <<- for_break (fun %s %s =>\n  %s) (zrange %s) %s ;;\n  %s" % (
                 p_, p_ if p_ != "_" else "_", cname(s.target.id), body, c, t_, nxt(env)))
         if isinstance(s, ast.Try):
@@ -1173,16 +1200,17 @@ class Skel:
         env = {arg.arg: "V" for arg in a.args}
 
         def kend(env2):
-            raise Unsupported("the function ends before the cut (no assignment to %s)" % self.stop_at)
+            raise Unsupported("the function ends before the cut (no assignment to %s)" % self.stop_at if self.stop_at
+                              else "the function may end without return")
         body = self.block(f.body, env, kend, None)
         params = " ".join("(%s : V)" % cname(arg.arg) for arg in a.args)
-        rt = "V" if len(self.result_names) == 1 else "(" + " * ".join("V" for _ in self.result_names) + ")"
+        rt = "V" if len(self.result_names) <= 1 else "(" + " * ".join("V" for _ in self.result_names) + ")"
         return "Definition %s %s : M V %s :=\n  %s." % (fname(f.name), params, rt, body)
 
 
 SKEL_HEADER = """(* GENERATED by vcheck/py2coq.py (skeleton mode) from %(src)s - do not edit.
    Regenerated from /repo's working tree on every run.  Semantic table: Gen/PySkel.v.
-   The function is translated up to (not including) the first assignment to `%(stop)s`: what follows is result assembly. *)
+   %(stop)s *)
 From Coq Require Import String.
 From Coq Require Import ZArith List Bool.
 From Ticc Require Import Gen.PyRt Gen.PySkel.
@@ -1196,18 +1224,23 @@ Section Gen.
   Variable as_int : V -> option Z.
   Variable veq : V -> V -> bool.
   Variable getattr : V -> string -> V.
+  Variable truthy : V -> bool.
   Variable oracle : list (event V) -> string -> list V -> res V.
 
 """
 
-SKEL_TARGETS = {"main_loop": ("main_loop.py", "fit_stacked_data", "bayesian_ic", ["current_model_state"])}
+SKEL_TARGETS = {"main_loop": ("main_loop.py", "fit_stacked_data", "bayesian_ic", ["current_model_state"]),
+                # the whole function (no cut): control flow of the ADMM iteration
+                "solver_loop": ("admm/solver.py", "run_admm_optimization", None, [])}
 
 
 def translate_skeleton(mod, src_root):
     rel, name, stop_at, results = SKEL_TARGETS[mod]
     tree = ast.parse(open(os.path.join(src_root, rel)).read())
     funcs = {n.name: n for n in tree.body if isinstance(n, ast.FunctionDef)}
-    out = [SKEL_HEADER % {"src": "src/fast_ticc/" + rel, "stop": stop_at}]
+    out = [SKEL_HEADER % {"src": "src/fast_ticc/" + rel, "stop": (
+        "The function is translated up to (not including) the first assignment to `%s`: what follows is result assembly." % stop_at
+        if stop_at else "The whole function is translated.")}]
     if name not in funcs:
         out.append("  (* %s: NOT TRANSLATED - missing from the source *)\n\nEnd Gen.\n" % name)
         return "".join(out), {name: "missing from the source"}
